@@ -679,6 +679,7 @@ func vcForall[T any](f func(T) bool) bool { return true }
 func vcExists[T any](f func(T) bool) bool { return true }
 func vcArr[T any](s []T) uint64 { return 0 }
 func vcOff[T any](s []T) int { return 0 }
+func vcAllocated[T any](s []T) bool { return true }
 func vcPreElem[T any](s []T, k int) T { var z T; return z }
 func vcFresh[T any](p *T) bool { return true }
 func vcFreshSlice[T any](s []T) bool { return true }
